@@ -168,6 +168,15 @@ spec:
   - to:
     - namespaceSelector: {}
     ports: [{port: 53, protocol: UDP}]
+`, `apiVersion: networking.k8s.io/v1
+kind: NetworkPolicy
+metadata: {name: np2, namespace: ns1}
+spec:
+  podSelector: {}
+  ingress:
+  - from: [{namespaceSelector: {}}]
+    ports: [{port: http}]
+  - ports: [{port: dns, protocol: UDP}, {port: web, protocol: SCTP}]
 `, `apiVersion: policy.networking.k8s.io/v1alpha1
 kind: AdminNetworkPolicy
 metadata: {name: anp1}
@@ -207,4 +216,53 @@ items:
     podSelector: {}
     ingress:
     - from: [{podSelector: {}}]
+`}
+
+// Extras are valid manifests that use API fields the analysis does not support, or documented error paths; each is
+// added (alone) to the corpus, unmutated and with every single mutation. On a tree that reports them with an error
+// most outcomes are "error"; they matter as soon as a change starts to evaluate the field.
+var Extras = []string{`apiVersion: policy.networking.k8s.io/v1alpha1
+kind: AdminNetworkPolicy
+metadata: {name: anp-networks}
+spec:
+  priority: 7
+  subject: {namespaces: {}}
+  egress:
+  - name: e1
+    action: Deny
+    to: [{networks: [10.0.0.0/8, "fd00::/8"]}]
+    ports: [{namedPort: http}, {portNumber: {port: 80, protocol: TCP}}]
+  - name: e2
+    action: Allow
+    to: [{nodes: {matchLabels: {kubernetes.io/os: linux}}}, {domainNames: ["*.example.com"]}]
+`, `apiVersion: policy.networking.k8s.io/v1alpha1
+kind: BaselineAdminNetworkPolicy
+metadata: {name: default}
+spec:
+  subject: {namespaces: {}}
+  egress:
+  - name: e1
+    action: Allow
+    to: [{networks: [0.0.0.0/0]}]
+    ports: [{namedPort: dns}]
+`, `apiVersion: networking.k8s.io/v1
+kind: NetworkPolicy
+metadata: {name: np-named-to-ip, namespace: ns1}
+spec:
+  podSelector: {matchLabels: {app: a}}
+  policyTypes: [Egress]
+  egress:
+  - to: [{ipBlock: {cidr: 0.0.0.0/0}}, {namespaceSelector: {}}]
+    ports: [{port: http}, {port: dns, protocol: UDP}]
+`, `apiVersion: policy.networking.k8s.io/v1alpha1
+kind: AdminNetworkPolicy
+metadata: {name: anp-same-labels-samenamespace}
+spec:
+  priority: 9
+  subject: {pods: {namespaceSelector: {matchLabels: {team: a}}, podSelector: {}}}
+  ingress:
+  - name: i1
+    action: Pass
+    from: [{namespaces: {matchExpressions: [{key: team, operator: Exists}]}}]
+    ports: [{portRange: {start: 100, end: 90, protocol: TCP}}]
 `}
